@@ -10,7 +10,7 @@ def orgOfName : String → Option Org
   | "rgb8p"  => some { mstep := 1, b2m := 1, chans := 3, planar := true,  nontrivial := false, pixel := true }
   | "gray16" => some { mstep := 2, b2m := 1, chans := 1, planar := false, nontrivial := false, pixel := true }
   | "rgb565" => some { mstep := 2, b2m := 1, chans := 3, planar := false, nontrivial := false, pixel := true }
-  | "gray1"  => some { mstep := 1, b2m := 8, chans := 1, planar := false, nontrivial := false, pixel := true, fillBroken := true }
+  | "gray1"  => some { mstep := 1, b2m := 8, chans := 1, planar := false, nontrivial := false, pixel := true }
   | "elem"   => some { mstep := 4, b2m := 1, chans := 1, planar := false, nontrivial := true,  pixel := false }
   | _ => none
 
@@ -332,6 +332,7 @@ partial def judgeLoop (h : Hist) (names : List (List String)) (recs : List Rec) 
           else judgeLoop h (names.drop 1) rest r.slots heap' (idx + 1)
 
 def judge (op obs : String) : String :=
+  if obs.trimAscii.toString == "err:no-compile" then "fail compiles" else
   match parseHist op with
   | none => "fail bad-op"
   | some h =>
